@@ -29,6 +29,11 @@ Proof. vm_compute. split; reflexivity. Qed.
 Example C02_ex_asterisk : rfc_head {| h_method := bs "OPTIONS"; h_target := Asterisk; h_minor := true; h_fields := [] |} = true.
 Proof. vm_compute. reflexivity. Qed.
 Example C02_ex_pathless_query :
-  exists r, parse_request (render {| h_method := bs "GET"; h_target := Absolute (bs "http") (bs "a") [] (Some (bs "x/y")); h_minor := true; h_fields := [] |}) = Ok r
-  /\ uri_path (q_target r) = Ok [] /\ uri_query (q_target r) = Ok (Some (bs "x/y")).
-Proof. eexists. vm_compute. repeat split. Qed.
+  match parse_request (render {| h_method := bs "GET"; h_target := Absolute (bs "http") (bs "a") [] (Some (bs "x/y")); h_minor := true; h_fields := [] |}) with
+  | Ok r => match uri_path (q_target r), uri_query (q_target r) with
+            | Ok p, Ok (Some q) => bytes_eqb p [] && bytes_eqb q (bs "x/y")
+            | _, _ => false
+            end
+  | _ => false
+  end = true.
+Proof. vm_compute. reflexivity. Qed.
